@@ -110,6 +110,45 @@ example : lockEdges.length > 0 := by decide +kernel
 example : Path (lockGraph [⟨0, 0, 1, 0⟩, ⟨1, 1, 0, 0⟩]) 0 0 :=
   Path.cons (b := 1) (by decide) (Path.single (by decide))
 
+/-! ### Lock-guarded fields of `Session` -/
+
+/-- The (function, field) pairs of the current source that touch a guarded field of `Session` without its mutex
+outside construction (finding C20-F5).  A pair not listed here fails `session_fields_guarded_except_known`. -/
+def knownSessionSites : List (String × String) := [
+  ("Session.CleanDatabase", "invalidTorrentIDs"),
+  ("Session.loadExistingTorrent", "availablePorts"),
+  ("rpcHandler.handleMoveTorrent", "torrents")
+]
+
+def sessNamed (a : SessAcc) : String × String := (sessFnNames.getD a.fn "?", sessFieldNames.getD a.field "?")
+
+/-- **session_fields_guarded_except_known.** Recomputed by the kernel from the extracted table: every access to a
+mutex-guarded field of `Session` that can run after construction holds the guard — exclusively for a write, at
+least shared for a read; lexically or in every caller — except the recorded sites. -/
+theorem session_fields_guarded_except_known :
+    ((sessUnguarded sessAccesses).map sessNamed).all (fun p => knownSessionSites.contains p) = true := by
+  decide +kernel
+
+/-- What the rule buys: two accesses that both satisfy it, to the same field written after construction, at least
+one of them a write, neither during construction, hold the same `RWMutex` — the writer exclusively, the other at
+least shared — so the mutex orders them. -/
+theorem session_guard_excludes (tbl : List SessAcc) (a b : SessAcc)
+    (ha : sessGuardOk tbl a = true) (hb : sessGuardOk tbl b = true)
+    (hca : a.ctor = false) (hcb : b.ctor = false) (hf : a.field = b.field)
+    (hw : sessFieldWritten tbl a.field = true) (haw : a.write = true) :
+    a.mode = 2 ∧ b.mode ≠ 0 := by
+  have hwb : sessFieldWritten tbl b.field = true := hf ▸ hw
+  unfold sessGuardOk at ha hb
+  simp only [hca, hcb, hw, hwb, haw, Bool.false_or, Bool.not_true, if_true] at ha hb
+  refine ⟨by simpa using ha, ?_⟩
+  cases hbw : b.write <;> simp [hbw] at hb <;> omega
+
+/-- Non-vacuity: the table has guarded accesses outside construction, the rule rejects an unguarded write … -/
+example : (sessAccesses.filter fun a => !a.ctor && a.mode != 0).length > 0 := by decide +kernel
+example : sessUnguarded [⟨0, 0, true, 1, false⟩] = [⟨0, 0, true, 1, false⟩] := by decide
+/-- … and a read under a read lock next to a write under the write lock is accepted. -/
+example : sessUnguarded [⟨0, 0, true, 2, false⟩, ⟨1, 0, false, 1, false⟩] = [] := by decide
+
 /-- **discipline_sound.** In any execution whose happens-before relation orders all events of the loop
 goroutine and all pairs of critical sections of one mutex, two events whose accesses do not `clash`
 (and are placed on goroutines as their contexts say) never race. -/
